@@ -6,6 +6,7 @@ package shmipc
 // at a generated point of the workload; the survivor in this process is judged.
 
 import (
+	"runtime"
 	"fmt"
 	"net"
 	"os"
@@ -345,7 +346,23 @@ func killRun(c killCase, r *runCtx) {
 		return
 	}
 	if _, df := settleCensus(base, 6*time.Second); df != "" {
-		r.Violf("peer process killed (role %s, after %d messages), survivor closed: %s", c.ChildRole, c.KillAfter, df)
+		// which library goroutines are still around (a wedged event loop or teardown shows here)
+		buf := make([]byte, 1<<20)
+		buf = buf[:runtime.Stack(buf, true)]
+		var libg []string
+		for _, g := range strings.Split(string(buf), "\n\n") {
+			if strings.Contains(g, "shmipc-go.(*") && !strings.Contains(g, "zz_verif_") {
+				lines := strings.Split(g, "\n")
+				if len(lines) > 9 {
+					lines = lines[:9]
+				}
+				libg = append(libg, strings.Join(lines, "\n"))
+			}
+		}
+		if len(libg) > 6 {
+			libg = libg[:6]
+		}
+		r.Violf("peer process killed (role %s, after %d messages), survivor closed: %s\nlibrary goroutines still running:\n%s", c.ChildRole, c.KillAfter, df, strings.Join(libg, "\n--\n"))
 		return
 	}
 	if c.KillAfter > 0 {
